@@ -333,13 +333,95 @@ def rule_ids(ctx):
     k_, tbl = None, None
     autoinc = any(isinstance(x, ast.Constant) and isinstance(x.value, str) and "CREATE TABLE" in x.value.upper() and "prekeys" in x.value and "AUTOINCREMENT" in x.value.upper()
                   for x in ast.walk(repo.module(PKS).tree))
-    ctx.check("C14.ids", has_max, where(PKS, "LitePreKeyStore.loadMaxPreKeyId", st.lineno), "max(prekey_id) over the stored keys", "the highest stored id must be consulted", "max(prekey_id)")
-    ctx.check("C14.ids", durable and combined and autoinc, where(PKS, "LitePreKeyStore.loadMaxPreKeyId", st.lineno), "high-water mark survives consumption",
+    ex = max_id_scenarios(repo)
+    if ex is not None:
+        # decided by executing loadMaxPreKeyId against database states (the queries it issues are evaluated): the answer
+        # must be the highest id ever handed out, whatever has been consumed since
+        low = [x for x in ex if x[3] is not None and x[4] and isinstance(x[3], int) and x[3] < x[2]]
+        other = [x for x in ex if x[3] != x[2] and x not in low]
+        ctx.check("C14.ids", not other, where(PKS, "LitePreKeyStore.loadMaxPreKeyId", st.lineno), "max(prekey_id) over the stored keys",
+                  "the highest id handed out must be answered: " + "; ".join("%s: answers %r, not %r" % (x[0], x[3], x[2]) for x in other[:2]), "the highest id in %d database states" % len(ex))
+        ctx.check("C14.ids", not low and autoinc, where(PKS, "LitePreKeyStore.loadMaxPreKeyId", st.lineno), "high-water mark survives consumption",
+                  "the next id is derived from the rows still stored only: once the key with the highest id has been consumed (its row is deleted) the next batch starts at that id again - one id is offered to the server for two different keys"
+                  + ("" if autoinc else " (the table has no AUTOINCREMENT counter to consult)") + "".join(" [%s: answers %r, highest id handed out %r]" % (x[0], x[3], x[2]) for x in low[:1]),
+                  "max(stored ids, AUTOINCREMENT counter): not lowered by deleting consumed keys (%d states with consumed keys)" % len([x for x in ex if x[4]]))
+    else:
+      ctx.check("C14.ids", has_max, where(PKS, "LitePreKeyStore.loadMaxPreKeyId", st.lineno), "max(prekey_id) over the stored keys", "the highest stored id must be consulted", "max(prekey_id)")
+      ctx.check("C14.ids", durable and combined and autoinc, where(PKS, "LitePreKeyStore.loadMaxPreKeyId", st.lineno), "high-water mark survives consumption",
               "the next id is derived from the rows still stored only: once the key with the highest id has been consumed (its row is deleted) the next batch starts at that id again - one id is offered to the server for two different keys",
               "max(stored ids, AUTOINCREMENT counter): not lowered by deleting consumed keys")
     # consumed keys are removed (cannot be used twice): the store's removePreKey deletes by id (C13) and is part of the store API handed to the library
     rm = repo.method(PKS, "LitePreKeyStore", "removePreKey")
     ctx.check("C14.ids", "DELETE FROM prekeys WHERE prekey_id" in unparse(rm), where(PKS, "LitePreKeyStore.removePreKey", rm.lineno), "removePreKey deletes by id", "a consumed key must be deleted by its id", "deleted by id")
+
+
+def max_id_scenarios(repo):
+    """LitePreKeyStore.loadMaxPreKeyId executed against small database states; the SQL it issues is evaluated by sa/sql.query
+    -> [(label, db, highest id ever handed out, answer, some key consumed?)] or None when it cannot be followed"""
+    from ..absint import Interp, Obj, _Raise, NeedAtom, Budget, DomainGrew
+    from .. import sql as _sql
+    cls = repo.cls(PKS, "LitePreKeyStore")
+    states = [("fresh database", [], None, 0),
+              ("keys 1-3 stored", [1, 2, 3], 3, 3),
+              ("keys 1-3 handed out, 3 consumed", [1, 2], 3, 3),
+              ("keys 1-5 handed out, all consumed", [], 5, 5),
+              ("keys 1-6 handed out, 2 and 6 consumed", [1, 3, 4, 5], 6, 6),
+              ("keys 1-4 stored, 2 consumed", [1, 3, 4], 4, 4)]
+    out = []
+    for label, ids, seq, want in states:
+        db = {"prekeys": [{"prekey_id": i, "_id": i, "sent_to_server": 1} for i in ids],
+              "sqlite_sequence": ([{"name": "prekeys", "seq": seq}] if seq is not None else [])}
+        last = [None]
+        failed = []
+
+        def execute(itp, recv, a, k, env, d, e):
+            if not a or a[0][0] != "c" or not isinstance(a[0][1], str):
+                failed.append("query text is not a constant")
+                raise _Raise(("ext", "Unfollowed", []), "query not constant")
+            ps = []
+            if len(a) > 1:
+                items = itp.iterate(itp.force(a[1]))
+                if items is None or not all(x[0] == "c" for x in items):
+                    failed.append("parameters are not constants")
+                    raise _Raise(("ext", "Unfollowed", []), "parameters")
+                ps = [x[1] for x in items]
+            try:
+                last[0] = _sql.query(db, a[0][1], ps)
+            except _sql.SqlUnsupported as x:
+                failed.append(str(x))
+                raise _Raise(("ext", "Unfollowed", []), "unsupported SQL")
+            return ("ext", "cursor", [])
+
+        def fetchone(itp, recv, a, k, env, d, e):
+            rows = last[0] or []
+            if not rows:
+                return ("c", None)
+            r0 = rows[0]
+            last[0] = rows[1:]
+            return ("c", tuple(r0))
+
+        def fetchall(itp, recv, a, k, env, d, e):
+            rows, last[0] = last[0] or [], []
+            return ("list", [("c", tuple(r)) for r in rows])
+        hooks = {"ext:*.execute": execute, "anymethod:execute": execute, "ext:*.fetchone": fetchone, "anymethod:fetchone": fetchone,
+                 "ext:*.fetchall": fetchall, "anymethod:fetchall": fetchall}
+        it = Interp(repo, {}, {}, hooks=hooks)
+        o = Obj(cls)
+        o.fields["dbConn"] = ("ext", "db", [])
+        try:
+            v = it.method_call(("obj", o), "loadMaxPreKeyId", [], {}, {"@module": cls.module, "@owner": cls}, 0, None)
+        except _Raise as r:
+            if failed:
+                return None
+            out.append((label, db, want, "raises %s" % r.text[:50], len(ids) < (seq or 0)))
+            continue
+        except (NeedAtom, Budget, DomainGrew):
+            return None
+        v = it.force(v)
+        if v[0] != "c":
+            return None
+        out.append((label, db, want, v[1], len(ids) < (seq or 0)))
+    return out
 
 
 def rule_bundle(ctx, ent):
